@@ -143,9 +143,15 @@ def correspondence(ctx):
 # ------------------------------------------------------------------------------------------------
 def check_cm_vs_spec(ctx, case):
     desc, omega = case['desc'], np.asarray(case['omega'], dtype=float)
-    p = gens.build(desc)
+    p = gens.build_used(desc, np.random.default_rng(case.get('hseed', 0)), 0.5, len(omega), omega,
+                        ('phases', 'cache_phases', 'ff2'))
     B = p.get_control_matrix(omega)
     S = gens.spec_control_matrix(desc, omega)
+    if B.shape != S.shape:
+        ctx.count((desc['features'], desc['d'], len(desc['dt']), omega.tobytes()))
+        ctx.fail('cm_vs_spec', case, {'shape': list(B.shape)}, {'shape': list(S.shape)}, {},
+                 f'control matrix has shape {B.shape}, expected {S.shape} (stale value served?)')
+        return np.inf
     scale = max(np.max(np.abs(S)), np.max(np.abs(B)) if np.all(np.isfinite(B)) else 0, 1e-300)
     err = float(np.max(np.abs(B - S))/scale) if np.all(np.isfinite(B)) else np.inf
     ctx.count((desc['features'], desc['d'], len(desc['dt']), omega.tobytes()))
@@ -220,7 +226,7 @@ def search(ctx, deep=False):
         omega = gens.resonant_omegas(rng, desc, thr)
         if len(omega) > 24:
             omega = np.concatenate((omega[:1], rng.choice(omega[1:], 23, replace=False)))
-        case = {'desc': desc, 'omega': omega}
+        case = {'desc': desc, 'omega': omega, 'hseed': int(rng.integers(0, 2**31))}
         e = check_cm_vs_spec(ctx, case)
         worst = max(worst, e if np.isfinite(e) else 0)
         if i % 3 == 0:
